@@ -440,6 +440,34 @@ def r14(ctx, rep):
     rep.check({"From", "Join", "Select", "Aggregate", "_"} <= seen, "frame:arms", f"determine_select_columns decides by From / Join / Select / Aggregate / other; found arms {sorted(seen)}", line=f["l"], **loc)
 
 
+def r15(ctx, rep):
+    """The positional mapping that re-orders the columns of an `append` operand is per relation instance. `activate_mapping(riid)` decides
+    it for the instance being compiled - including "none": an instance without a stored mapping must switch the previous one off, or
+    the next sub-query is projected through the mapping of an unrelated append (columns permuted and cut to its length)."""
+    import re
+    rep.rule("C05.R15", "activate_mapping sets the active positional mapping on every path, to the looked-up value or to none", floor=1)
+    syn = ctx.syn
+    f = next((g for g in syn.fns if g["crate"] == "prqlc" and g["file"].endswith("positional_mapping.rs") and g["name"] == "activate_mapping" and "body" in g), None)
+    if f is None:
+        raise AnchorMissing("PositionalMapper::activate_mapping")
+    prm = [x["n"] for p_ in f["params"] for x in walk(p_) if x.get("k") == "p_ident" and x["n"] != "self"]
+    top = [st for st in f["body"].get("s", []) if st.get("k") == "assign" and re.search(r"active\w*mapping$", show(st["lhs"]))]
+    nested = [n for n in walk(f["body"]) if n.get("k") == "assign" and re.search(r"active\w*mapping$", show(n["lhs"])) and not any(n is t for t in top)]
+    ok = len(top) == 1 and not nested and prm and re.search(r"\.(remove|get)\(&?" + re.escape(prm[0]) + r"\)", show(top[0]["rhs"], maxdepth=8)) is not None
+    # or: both branches of one top-level if / match assign it (Some(..) and None)
+    if not ok and not top:
+        for st in f["body"].get("s", []):
+            if st.get("k") == "if" and st.get("e") is not None:
+                a_t = [n for n in walk(st["t"]) if n.get("k") == "assign" and re.search(r"active\w*mapping$", show(n["lhs"]))]
+                a_e = [n for n in walk(st["e"]) if n.get("k") == "assign" and re.search(r"active\w*mapping$", show(n["lhs"]))]
+                ok = ok or (len(a_t) == 1 and len(a_e) == 1)
+            if st.get("k") == "match" and all(any(n.get("k") == "assign" and re.search(r"active\w*mapping$", show(n["lhs"])) for n in walk(a_["body"])) for a_ in st["arms"]):
+                ok = True
+    rep.check(ok, "activate:every-path", f"activate_mapping must assign the active mapping unconditionally from the stored mapping of `{prm[0] if prm else '?'}` "
+              f"(found {len(top)} top-level and {len(nested)} conditional assignment(s)): an instance without a mapping must clear the one left by the previous append operand",
+              file=f["file"], line=f["l"], fn=f["path"])
+
+
 def run(ctx, rep):
-    for r in (r1, r2, r3, r4, r5, r6, r7, r8, r9, r10, r12, r13, r14):
+    for r in (r1, r2, r3, r4, r5, r6, r7, r8, r9, r10, r12, r13, r14, r15):
         rep.guard(r, ctx)
